@@ -9,12 +9,33 @@ def esc(s): return s.replace('|', '\\|').replace('\n', ' ')
 rows = ['| Seeded change | Round | What it needs to manifest | Caught by |', '|---|---|---|---|']
 for m in sorted(glob.glob(R + '/seeded/*/meta.json')):
     d = json.load(open(m)); sid = os.path.basename(os.path.dirname(m))
-    rnd = '3' if '-r3-' in sid else ('2' if '-r2-' in sid else '1')
+    rnd = '4' if '-r4-' in sid else '3' if '-r3-' in sid else ('2' if '-r2-' in sid else '1')
     rows.append('| %s | %s | %s | %s |' % (sid, rnd, esc(d.get('needs_to_manifest', ''))[:420], esc(d.get('detected_by', ''))))
 k = json.load(open(R + '/known_findings.json'))['entries']
 fixed = ['* **%s** `%s` - %s' % (e['property'], e['commit'], e['what']) for e in k if e['status'] == 'fixed']
 known = ['* **%s** `%s` - %s' % (e['property'], e['signature'], e['what']) for e in k if e['status'] == 'known']
-blocks = {'seeded': '\n'.join(rows), 'fixed': '\n'.join(fixed), 'known': '\n'.join(known)}
+# as-built summary per property: from the evidence the checks write themselves and the driver's configuration
+import sys
+sys.path.insert(0, R)
+from checkcfg import PROPS
+asb = []
+for pid in sorted(PROPS):
+    cfg = PROPS[pid]
+    try:
+        ev = json.load(open(R + '/evidence/%s.json' % pid))
+    except Exception:
+        continue
+    tests = []
+    for t in cfg['tests']:
+        kind = t.get('kind', 'rapid')
+        if kind == 'fuzz':
+            tests.append('%s (native fuzz, thorough, %ds)' % (t['name'], t.get('fuzztime', 60)))
+        elif kind == 'plain':
+            tests.append('%s (enumeration / corpus)' % t['name'])
+        else:
+            tests.append('%s (rapid; quick %s, thorough %s cases%s)' % (t['name'], t.get('quick'), t.get('thorough'), ', race detector' if t.get('race') else ''))
+    asb.append('#### %s\n*Tests:* %s.\n\n%s\n\n*Assumptions:* %s\n' % (pid, '; '.join(tests), ev['coverage'].get('rule', '').replace(' || ', '\n\n'), '; '.join(ev.get('assumptions', []) or ['-'])))
+blocks = {'seeded': '\n'.join(rows), 'fixed': '\n'.join(fixed), 'known': '\n'.join(known), 'asbuilt': '\n'.join(asb)}
 s = open(R + '/DESIGN.md').read()
 for name, body in blocks.items():
     pat = re.compile(r'(<!-- gen:%s -->\n).*?(\n<!-- /gen:%s -->)' % (name, name), re.S)
